@@ -104,6 +104,10 @@ func vcsvRender(s vcsvScenario, render string) string {
 			if i > 0 {
 				b.WriteString(s.Sep)
 			}
+			if strings.HasPrefix(f, "@x") { // CsvImport!BigText: that many times x
+				n, _ := strconv.Atoi(f[2:])
+				f = strings.Repeat("x", n)
+			}
 			if r.Malformed {
 				b.WriteString(f)
 			} else {
